@@ -655,6 +655,11 @@ def sweep_yearfrac(ctx, tie):
         if a == b:
             continue
         a, b = min(a, b), max(a, b)
+        if j % 6 == 0 and a > 61:
+            # dates with a time of day, also two moments of one day
+            fa, fb = rng.choice([0.25, 0.5, 0.75, 0.999]), rng.choice([0.0, 0.125, 0.5, 0.75])
+            a, b = (a + fa, a + fb) if j % 12 == 0 and fa != fb else (a + fa, b + fb)
+            ctx.count('yearfrac:with-time-of-day')
         for basis in bases:
             res = check_yearfrac(ctx, LIB, a, b, basis)
             ctx.case(('yf', a, b, basis))
